@@ -429,6 +429,21 @@ def setter_overrides(F, crates):
                         # mode switch: choosing one parameterisation (`c = Some(..)`) clears the alternative (`nu = None`)
                         continue
                     out.append((fn, fld, Render(c).e(val)[:40], others[0]))
+                # `self.0.link.get_or_insert(default for this argument)`: the other setting is written only when it is still
+                # unset - what the parameter set ends up with depends on the calls made before (`power(1.).power(0.)` keeps the
+                # link that went with the first power), not on the last value of each setting
+                for z in walk(fn["body"]):
+                    if z.get("k") == "MethodCall" and z["name"] in ("get_or_insert", "get_or_insert_with") and z["args"]:
+                        l = strip(z["recv"])
+                        names = []
+                        while l.get("k") == "Field":
+                            names.insert(0, l["name"])
+                            l = peel_refs(l["e"])
+                        ns = [n_ for n_ in names if n_ != "0"]
+                        if l.get("k") == "Path" and l.get("name") == "self" and ns and ns[0] not in own:
+                            others = [g for g in setters.get(ns[0], []) if g is not fn]
+                            if others and any(y_.get("k") == "Path" and y_.get("local") in ps for y_ in walk(z["args"][0])):
+                                out.append((fn, ns[0], "get_or_insert(" + Render(c).e(z["args"][0])[:30] + ")", others[0]))
     return out, n
 
 
